@@ -86,6 +86,21 @@ def event_problem(ev):
     return dict(A=A, b=b, blocks=blocks, minx=minx, meta=dict(m=m, n=n))
 
 
+def linearisation_bound(ref, coords):
+    """First-order bound [mm] on what gama's stopping rule for the linearisation iterations leaves undecided in the
+    adjusted coordinates: gama iterates until the linear and the non-linear adjusted observations differ by less than
+    0.0005 mm (angles converted to a transverse length at the target), so each right-hand side is known to
+    eps_i = 0.0005 * |coordinate gradient of row i| only; the bound is |T pinv(Aw)| |L^-1| eps, maximum over the
+    coordinate unknowns `coords` (1-based)."""
+    cols = [j - 1 for j in coords]
+    if not cols or ref.T is None:
+        return 0.0
+    eps = 0.0005 * np.sqrt((ref.A[:, cols] ** 2).sum(axis=1))
+    Linv = np.abs(np.linalg.inv(np.linalg.cholesky(ref.C)))
+    S = np.abs(ref.T @ np.linalg.pinv(ref.Aw, rcond=1e-9))
+    return float((S @ (Linv @ eps))[cols].max())
+
+
 def adjust_events(g):
     return [e for e in g.trace if e.get("kind") == "adjust"]
 
@@ -250,11 +265,12 @@ def compare_physical(A, B, tol_m=1e-7, rel=1e-6, what=("points", "obs", "stats",
                 continue
             a2, b2, az2 = B["ellipses"][pid]
             sc = max(a, a2, 1e-12)
-            if abs(a - a2) > 1e-6 * sc + 1e-9 or abs(b - b2) > 1e-6 * sc + 1e-7:
+            er = max(rel, 1e-6)
+            if abs(a - a2) > er * sc + 1e-9 or abs(b - b2) > er * sc + 1e-7:
                 bad.append(("ellipses:axes", "%s axes (%.9g, %.9g) vs (%.9g, %.9g)" % (pid, a, b, a2, b2)))
             elif a - b > 1e-3 * sc:          # azimuth is defined only for a non-circular ellipse
                 d = abs((az - az2 + 100.0) % 200.0 - 100.0)
-                if d > 1e-4 * sc / max(a - b, 1e-12) + 1e-6:
+                if d > 1e-4 * max(1.0, rel / 1e-6) * sc / max(a - b, 1e-12) + 1e-6:
                     bad.append(("ellipses:azimuth", "%s major-axis azimuth %.6f vs %.6f gon" % (pid, az, az2)))
     if "cov" in what:
         keys = set(A["cov"]) & set(B["cov"])
